@@ -37,12 +37,32 @@ def _mentions_params(e: ast.AST) -> bool:
     return False
 
 
+def _is_params_expr(e: ast.AST) -> bool:
+    """The expression IS the parameter mapping (not something computed from one of its entries)."""
+    if isinstance(e, ast.Name):
+        return e.id == "params" or e.id.endswith("_params") or e.id.startswith("params_") or e.id == "eqn_params"
+    if isinstance(e, ast.Attribute):
+        return e.attr == "params"
+    if isinstance(e, ast.Call):
+        cn = call_name(e) or ""
+        if cn == "getattr" and len(e.args) >= 2 and isinstance(e.args[1], ast.Constant) and e.args[1].value == "params":
+            return True
+        if cn in ("dict", "cast", "MappingProxyType", "copy.copy") and e.args:
+            return _is_params_expr(e.args[-1])
+        return False
+    if isinstance(e, ast.BoolOp):
+        return any(_is_params_expr(v) for v in e.values)
+    if isinstance(e, ast.IfExp):
+        return _is_params_expr(e.body) or _is_params_expr(e.orelse)
+    return False
+
+
 def _is_paramslike(e: ast.AST, du, _depth: int = 0) -> bool:
-    if _mentions_params(e):
+    if _is_params_expr(e):
         return True
     if isinstance(e, ast.Name) and _depth < 3:
         for v in du.values(e.id):
-            if _is_paramslike(v, du, _depth + 1) and not isinstance(v, ast.Subscript) and not (isinstance(v, ast.Call) and isinstance(v.func, ast.Attribute) and v.func.attr in ("get", "pop")):
+            if v is not None and (_is_params_expr(v) or (isinstance(v, ast.Name) and _is_paramslike(v, du, _depth + 1))):
                 return True
     return False
 
